@@ -80,7 +80,7 @@ func TestConcurrentStreams(t *testing.T) {
 			for i, so := range o.Sub {
 				p := plan[i]
 				for _, msg := range []string{streamcase.ClientToServer(d, s, p.meth, p.c, so), streamcase.ServerToClient(d, s, p.meth, p.c, so)} {
-					if msg == "" {
+					if msg == "" || streamcase.Skipped(msg) {
 						continue
 					}
 					h.Close()
